@@ -328,13 +328,36 @@ fn hostile_pool_ops(rng: &mut Rng, stakes: &[u64], max_slot: u64) -> Vec<(Op, &'
 struct PoolOut { txt: String, votor_panics: u64, pool_panics: u64, kinds: Vec<String>, finalized: u64, hostile: usize }
 
 fn pool_case(rng: &mut Rng, ring: &mut KeyRing, id: u64) -> PoolOut {
-    let (stakes, _fam) = poolgen::stake_family(rng);
-    let own = rng.below(stakes.len() as u64);
-    let w = poolgen::world(rng, &stakes, own, false, true, true);
-    let hostile = hostile_pool_ops(rng, &stakes, w.max_slot);
+    let (mut stakes, _fam) = poolgen::stake_family(rng);
+    let mut own = rng.below(stakes.len() as u64);
+    let mut w = poolgen::world(rng, &stakes, own, false, true, true);
+    let mut hostile = hostile_pool_ops(rng, &stakes, w.max_slot);
+    if rng.chance(1, 10) {
+        // certificate reordering around an equivocating leader (two blocks in one slot, the registered one loses):
+        // the child (s+1, x) waits for its parent (s, p); slot s+1 is decided and pruned for another block before the
+        // parent's notarization arrives.  (599595f: the pinned tree panicked "parent not known" here.)
+        stakes = vec![1; 5];
+        own = rng.below(5);
+        let s = rng.range(1, 3);
+        let q3: Vec<u64> = { let mut v: Vec<u64> = (0..5).collect(); rng.shuffle(&mut v); v.truncate(3); v.sort(); v };
+        let q4: Vec<u64> = { let mut v: Vec<u64> = (0..5).collect(); rng.shuffle(&mut v); v.truncate(4); v.sort(); v };
+        let mut ops = vec![
+            Op::Block { b: (s + 1, 22), p: (s, 11) },
+            Op::Cert { slot: s, kind: CK::Final, hash: 0, s1: q3.clone(), s2: vec![] },
+            Op::Cert { slot: s + 1, kind: CK::FastFinal, hash: 23, s1: q4.clone(), s2: vec![] },
+            Op::Cert { slot: s + 2, kind: CK::FastFinal, hash: 34, s1: q4.clone(), s2: vec![] },
+        ];
+        if rng.chance(1, 2) { ops.push(Op::Block { b: (s + 2, 34), p: (s + 1, 23) }); }
+        if rng.chance(1, 2) { ops.push(Op::Block { b: (s + 1, 23), p: (s, 11) }); }
+        ops.push(Op::Cert { slot: s, kind: CK::Notar, hash: 11, s1: q3.clone(), s2: vec![] });
+        ops.push(Op::Standstill);
+        w = poolgen::World { ops, max_slot: s + 2 };
+        hostile = Vec::new();
+    }
     // interleave hostile operations at random positions of the consistent history
-    let mut ops: Vec<(Op, &'static str)> = w.ops.into_iter().map(|o| (o, "history")).collect();
-    let nh = hostile.len();
+    let scripted = hostile.is_empty();
+    let mut ops: Vec<(Op, &'static str)> = w.ops.into_iter().map(|o| (o, if scripted { "reordered-certs-equivocating-leader" } else { "history" })).collect();
+    let nh = if scripted { ops.len() } else { hostile.len() };
     for h in hostile { let pos = rng.below(ops.len() as u64 + 1) as usize; ops.insert(pos, h); }
     let keys = ring.get(stakes.len());
     let epoch = keys.epoch(&stakes, own);
